@@ -1705,6 +1705,18 @@ theorem numText_dollar (cs : Numeral) (hne : cs ≠ []) (hd : ∀ p ∈ cs, p.2 
     have := dollar_reads cs rest hne hd hr hfit
     simpa using this⟩
 
+theorem numText_bin (cs : Numeral) (hne : cs ≠ []) (hd : ∀ p ∈ cs, p.2 < 2) (hfit : value 2 cs < 2 ^ 63) :
+    NumText ('0' :: 'b' :: text cs) (value 2 cs) :=
+  ⟨⟨'0', 'b' :: text cs, rfl, Or.inl (by decide)⟩, fun rest hr => by
+    have := bin_reads cs rest hne hd hr hfit
+    simpa using this⟩
+
+theorem numText_oct (cs : Numeral) (hne : cs ≠ []) (hd : ∀ p ∈ cs, p.2 < 8) (hfit : value 8 cs < 2 ^ 63) :
+    NumText ('0' :: text cs) (value 8 cs) :=
+  ⟨⟨'0', text cs, rfl, Or.inl (by decide)⟩, fun rest hr => by
+    have := oct_reads cs rest hne hd hr hfit
+    simpa using this⟩
+
 /-! non-vacuity: ` LDI r16 , 0x1F // c` -/
 example : line ([' '] ++ (['L', 'D', 'I'] ++ ([' '] ++ ((Item.reg false 16).text ++
       (itemsTail [([' '], [' '], Item.num ('0' :: 'x' :: text [(false, 1), (true, 15)]) (value 16 [(false, 1), (true, 15)]))] ++ ([' '] ++ ['/', '/', 'c'])))))) =
